@@ -74,7 +74,7 @@ class Env:
     def close(self):
         shutil.rmtree(self.dir, ignore_errors=True)
 
-    def kwargs(self, v):
+    def kwargs(self, v, empty=False):
         kw = {}
         fmt, cm = v['input_format'], v['compression_mode']
         path = self.files[(fmt, cm)]
@@ -83,6 +83,11 @@ class Env:
                 'url_endpoint': "http://localhost:9/sparql", 'rdflib_graph': self.graph,
                 'target_classes': [EX + "C"], 'file_target_classes': self.tc, 'shape_map_file': self.sm,
                 'shape_map_raw': "<http://example.org/a>@<http://example.org/S>"}
+        if empty:
+            # present but empty: an argument that is given is given, whatever its truth value
+            import rdflib
+            vals.update({'raw_graph': "", 'rdflib_graph': rdflib.Graph(), 'target_classes': [], 'shape_map_raw': "",
+                         'graph_list_of_files_input': [], 'list_of_url_input': []})
         for k in SOURCES + TARGETS:
             if v[k]:
                 kw[k] = vals[k]
@@ -149,7 +154,7 @@ def canon_exc(e):
     return "ValueError" if type(e) is ValueError else "other:" + type(e).__name__
 
 
-def real_init(env, v, call=False):
+def real_init(env, v, call=False, empty=False):
     """constructor outcome, and (call=True, accepted, local source) the outcome of the first shex_graph"""
     from shexer.shaper import Shaper
     def _al(*a): raise Hang()
@@ -157,7 +162,7 @@ def real_init(env, v, call=False):
     signal.alarm(10)
     try:
         try:
-            sh = Shaper(**env.kwargs(v))
+            sh = Shaper(**env.kwargs(v, empty=empty))
         except Hang:
             return "hang", None
         except Exception as e:
@@ -243,14 +248,36 @@ def run(ctx):
                     violations.append({"what": "constructor / first call outcome differs from the reference predicate",
                                        "args": v, "constructor": out, "first_call": later, "expected": spec + " / a result",
                                        "how_to_replay": "Shaper(**kwargs) with the present arguments set to small valid values, then shex_graph(string_output=True)"})
+        # present-but-empty argument values: the guards test presence (`is not None`), so the constructor must answer as for
+        # non-empty values whenever the guard is what decides (a later stage may of course reject an empty shape map)
+        stats["empty_value_vectors"] = 0
+        for i, v in enumerate(vecs):
+            if i % 5 or not any(v[k] for k in ('raw_graph', 'rdflib_graph', 'target_classes', 'shape_map_raw', 'graph_list_of_files_input', 'list_of_url_input')):
+                continue
+            stats["empty_value_vectors"] += 1
+            out_e, _ = real_init(env, v, call=False, empty=True)
+            guard = mres.get("G%d" % i) if mres else None
+            spec = "ok" if valid_init(v) else "ValueError"
+            # the guard part of the reference predicate: an invalid combination is rejected, whatever the values
+            if spec == "ValueError" and out_e == "ok" and len(violations) < 10:
+                violations.append({"what": "an invalid combination of arguments is accepted when some of them are empty (\"\", [], empty Graph)",
+                                   "args": v, "constructor": out_e, "expected": spec})
+            if spec == "ok" and out_e == "ValueError" and not (v['shape_map_raw'] or v['shape_map_file']) and len(violations) < 10:
+                violations.append({"what": "a valid combination of arguments is rejected with ValueError when an argument is empty (\"\", [], empty Graph)",
+                                   "args": v, "constructor": out_e, "expected": spec})
         # call-time guards: on a fresh Shaper and on one that has already produced shapes
         # (a guard that only runs on the first pass of the pipeline is not "up front")
         from shexer.shaper import Shaper
         for j, c in enumerate(calls):
             for kind in ("shex", "profile"):
-                for warm in (False, True):
-                    sh = Shaper(raw_graph=NT_DOC, all_classes_mode=True)
-                    if warm:
+                for warm in (False, True, "unreadable"):
+                    if warm == "unreadable":
+                        # the guard must speak before any work is done: with a source that cannot be read, an invalid call still
+                        # has to end in ValueError, not in the error of the reader
+                        sh = Shaper(graph_file_input=os.path.join(env.dir, "does_not_exist.nt"), all_classes_mode=True)
+                    else:
+                        sh = Shaper(raw_graph=NT_DOC, all_classes_mode=True)
+                    if warm is True:
                         sh.shex_graph(string_output=True)
                     outf = os.path.join(env.dir, "out.txt")
                     try:
@@ -266,6 +293,11 @@ def run(ctx):
                     if c['to_uml_path']:
                         continue
                     spec = "ok" if (valid_call(c) if kind == "shex" else (c['string_output'] or c['output_file'])) else "ValueError"
+                    if warm == "unreadable":
+                        if spec == "ValueError" and out != "ValueError" and len(violations) < 10:
+                            violations.append({"what": "%s_graph with invalid arguments on an unreadable source ends in %s: the guard does not run up front" % (kind, out),
+                                               "args": c, "observed": out, "expected": "ValueError"})
+                        continue
                     stats[(kind, "warm" if warm else "fresh", spec, out)] = stats.get((kind, "warm" if warm else "fresh", spec, out), 0) + 1
                     g = mres.get(("s%d" if kind == "shex" else "p%d") % j)
                     if mres and g != out and len(disagreements) < 20:
